@@ -425,7 +425,7 @@ def run(ctx):
         nblk = 300
     else:
         ratios = list(range(4, 41))
-        scens = scenarios(ctx, rng, ratios, 6, ['b2b', 'small', 'upto3P', 'long'], full_bytes_ratio=[4, 5, 8, 13, 40])
+        scens = scenarios(ctx, rng, ratios, 10, ['b2b', 'small', 'upto3P', 'long'], full_bytes_ratio=[4, 5, 6, 7, 8, 13, 21, 40])
         scens.append({'sys_f': 50e6, 'uart_f': 115200, 'bytes': [0x5A, 0xC3], 'gaps': [0, 100], 'early': True, 'pacing': ('random', 0.01), 'seed': 3, 'tail': 500})
         kern = [{'sys_f': ra, 'uart_f': 1, 'bytes': [rng.randrange(256) for _ in range(2)], 'gaps': [0, rng.randrange(3 * ra)], 'early': bool(ra % 2),
                  'pacing': pc, 'seed': ra, 'tail': 8} for ra, pc in ((4, ('always',)), (5, ('every', 3, 1)), (6, ('random', 0.3)), (9, ('burst', 40, 2, 7)), (16, ('random', 0.2)))]
@@ -468,7 +468,7 @@ def run(ctx):
     ctx.assumptions += [
         'Model/Uart.v wraps the generated clock() functions in the kernel cycle semantics and models ClockGenerationAndRecovery by hand; both are compared with the real blocks cycle by cycle on every run',
         'UART wires are 1 bit wide, data wires 8 bits (as in HILWrapperUART.py); bit period P = 2*int(sysFreq/(2*uartFreq)) system clocks (ClockDivider truncates odd ratios)',
-        'theorems ser_frame / des_frame / sw_receiver_8n1 are per block; the composition through ClockGenerationAndRecovery (samples fall inside the bits) is covered by the differential, see docs/C17.md',
+        'link_delivers / link_never_loses / link_delivers_always_ready are about Model/Uart.v link_step (generated FSM functions + hand-composed ClockGenerationAndRecovery) from power-up; the real link is compared with that model cycle by cycle on every run',
         'consumer pacing: a byte is guaranteed only if the consumer is ready at two edges before the next frame ends (known finding %s otherwise)' % KF]
 
 
